@@ -9,13 +9,22 @@
    Proofs: Proofs/ChkSettle.v, Proofs/ChkFixedBid.v, Proofs/Chk04.v. *)
 From Coq Require Import ZArith NArith List Bool.
 From FR Require Import Dec Types Bank Match Step Genesis Model Spec Checkers.
-From FR.Proofs Require Import InvDefs InvAll ExcessExamples ChkSettleExamples Chk04.
+From FR.Proofs Require Import InvDefs InvAll ExcessExamples ChkSettleExamples Chk04 ChkDelivered.
 Import ListNotations.
 Open Scope Z_scope.
 
 Theorem C04_checker : forall s o, Inv s -> oracle_ok s o -> c04_ok (model_trans s o) = true.
 Proof. exact c04_ok_model. Qed.
 Print Assumptions C04_checker.
+
+(* the checker the driver evaluates for C04: c04_ok and, at the settlement of a fixed price auction, delivery of
+   exactly what each bid paid for (c04_delivered) *)
+Theorem C04_all_checker : forall s o, Inv s -> oracle_ok s o -> c04_all (model_trans s o) = true.
+Proof. exact c04_all_model. Qed.
+Print Assumptions C04_all_checker.
+Theorem C04_checker_delivered : forall s o, Inv s -> c04_delivered (model_trans s o) = true.
+Proof. exact c04_delivered_model. Qed.
+Print Assumptions C04_checker_delivered.
 
 (* the two clauses separately; the oracle hypothesis is not needed *)
 Theorem C04_checker_batch : forall s o, Inv s -> c04_batch (model_trans s o) = true.
